@@ -4,7 +4,7 @@ From V Require Import lib.Base model.Server gen.Gen_server.
 
 Definition gen_facts : facts :=
   {| Server.pool_close_drops := Gen_server.pool_close_drops; Server.pool_fail_discards := Gen_server.pool_fail_discards;
-     Server.fork_parent_keeps := Gen_server.fork_parent_keeps |}.
+     Server.fork_parent_keeps := Gen_server.fork_parent_keeps; Server.pool_catches_base := Gen_server.pool_catches_base |}.
 
 Lemma tie_base_progs :
   Gen_server.close_prog = Server.close_prog /\ Gen_server.accept_prog = Server.accept_prog
@@ -23,7 +23,8 @@ Proof. reflexivity. Qed.
 Lemma tie_pool_progs :
   Gen_server.pool_build_prog = Server.pool_build_prog /\ Gen_server.drop_prog = Server.drop_prog
   /\ Gen_server.poll_result_prog = Server.poll_result_prog /\ Gen_server.poller_prog = Server.poller_prog
-  /\ Gen_server.serve_requests_prog = Server.serve_requests_prog /\ Gen_server.pool_worker_prog = Server.pool_worker_prog
+  /\ Gen_server.serve_requests_prog = Server.serve_requests_prog_of Gen_server.pool_catches_base
+  /\ Gen_server.pool_worker_prog = Server.pool_worker_prog
   /\ Gen_server.add_inactive_prog = Server.add_inactive_prog /\ Gen_server.remove_inactive_prog = Server.remove_inactive_prog.
 Proof. repeat split; reflexivity. Qed.
 (* fresh per-server tables, one service instance and one set of tables per connection, guarded close, one hook call *)
